@@ -10,11 +10,35 @@ exercise the model/code correspondence at the domain boundary; the oracle is sil
 """
 from __future__ import annotations
 
+import json
 import random
+import signal
 from datetime import datetime, timedelta, timezone
 
 from harness.pyprelude import PreludeKernels
 from vlib.core import Check, Stream, b01, hs, line, opt, out_list, unhs
+
+TIME_LIMIT_S = 3.0
+
+
+class Timeout(BaseException):
+    """BaseException: an `except Exception` inside werkzeug or the harness must not swallow the alarm"""
+
+
+def _alarm(signum, frame):
+    raise Timeout()
+
+
+def timed(f):
+    """per-case time limit for dump -> parse on the real code (replaces the runner's longer watchdog)"""
+    old = signal.signal(signal.SIGALRM, _alarm)
+    signal.setitimer(signal.ITIMER_REAL, TIME_LIMIT_S)
+    try:
+        return f()
+    finally:
+        signal.setitimer(signal.ITIMER_REAL, 0)
+        signal.signal(signal.SIGALRM, old)
+
 
 TOKEN_CHARS = "!#$%&'*+-.0123456789ABCDEFGHIJKLMNOPQRSTUVWXYZ^_`abcdefghijklmnopqrstuvwxyz|~"
 HOT = ['"', "\\", ",", ";", "=", " ", "\t", "*", "%", "%22", "'", "/", ":", "-", "a", "b", "Z", "0", "9", "é", "\xff", "\xa0", "\x85",
@@ -499,6 +523,9 @@ class CodecPairs(Stream):
     ] + [
         {"codec": "cc-hist", "base": [[hs(k), opt(hs, v)] for k, v in base], "ops": ops}
         for base, ops in [
+            # int() of the typed accessors: digits of any script, white space, underscores (thorough-tier find)
+            ([("s-maxage", "\u0967")], [["i", hs("must-understand"), "~"]]), ([("max-age", " \u0661_\u0662\u3000")], []), ([("max-age", "\uff11\uff10")], [["t", "no_store", "true"]]),
+            ([("max-age", "5\x1f")], []), ([("max-age", "\u00b2")], []), ([("max-age", "1__0")], []), ([("max-age", "+\u0967")], []), ([("max-age", "-\u0660")], []), ([("s-maxage", "\U0001d7ce\U0001d7cf")], []),
             ([], [["t", "max_age", "i5"], ["t", "no_store", "true"], ["x", "max_age"]]), ([("max-age", "5")], [["t", "max_age", "none"], ["t", "private", "s" + hs("a")]]),
             ([("no-cache", None)], [["t", "no_cache", "false"], ["t", "no_cache", "true"], ["i", hs("x-ext"), hs("a b")], ["p", hs("x-ext")]]), ([("a", "b")], [["c"], ["t", "public", "true"]]),
             ([], [["t", "max_age", "true"], ["t", "s_maxage", "i-3"], ["t", "must_revalidate", "true"], ["t", "must_revalidate", "false"]]), ([], [["i", hs("a,b"), hs("x")]]),
@@ -851,8 +878,19 @@ class CodecPairs(Stream):
         # sets: canonical = sorted
         return c_etags(sorted(et._strong, key=lambda x: (x is None, x)), sorted(et._weak, key=lambda x: (x is None, x)), et.star_tag)
 
+    #: after the first hang nothing else is evaluated (remaining cases are marked skipped and ignored
+    #: by oracle and model comparison): a non-terminating change must not turn the check into a hang,
+    #: and the hanging value is the replay
     def real(self, case):
-        w, cp, _, _ = self.run_real(case)
+        state = self.__dict__.setdefault("_hang_state", {"hung": False, "skipped": set()})
+        if state["hung"]:
+            state["skipped"].add(json.dumps(case, sort_keys=True))
+            return "SKIPPED:after-hang"
+        try:
+            w, cp, _, _ = timed(lambda: self.run_real(case))
+        except Timeout:
+            state["hung"] = True
+            return "EXC:Timeout"
         if case["codec"] == "set-hist":
             return cp
         return hs(w) + "|" + cp
@@ -860,6 +898,9 @@ class CodecPairs(Stream):
     # ---- model ----
 
     def model_line(self, case):
+        st = self.__dict__.get("_hang_state")
+        if st and json.dumps(case, sort_keys=True) in st["skipped"]:
+            return None
         codec = case["codec"]
         if codec == "quote":
             return line("pair.quote", case["v"], b01(case["allow"]))
@@ -1084,6 +1125,11 @@ class CodecPairs(Stream):
         return False
 
     def oracle(self, case, real_out):
+        if real_out.startswith("SKIPPED:"):
+            return None
+        if real_out in ("EXC:Timeout", "EXC:HangTimeout"):
+            # "serialising and then parsing returns the value": it has to return
+            return f"{case['codec']}: parse(dump(v)) does not return (no answer within {TIME_LIMIT_S}s)" if self.in_domain(case) or case["codec"].endswith("-text") else None
         if not self.in_domain(case):
             return None
         codec = case["codec"]
